@@ -61,7 +61,13 @@ def run(path):
                 continue
             if hasattr(mod, "replay") and kind in getattr(mod, "REPLAY_KINDS", ()):
                 return mod.replay(wd, prop, rp, path)
-        raise Broken("unknown replay kind %r" % kind)
+        # every other kind (fault grid, format/text/codec/hostile cases, concurrency logs): the recorded case is
+        # part of a deterministic, seeded enumeration - re-run that enumeration on the current tree
+        seed = rp.get("seed", 1)
+        log("replay: re-running bin/check %s quick with VERIF_SEED=%s (recorded case: %s)" % (prop, seed, json.dumps(rp)[:300]))
+        env = dict(os.environ, VERIF_SEED=str(seed), VERIF_TIER="quick")
+        p = subprocess.run([os.path.join(VERIF, "bin", "check"), prop, "quick"], env=env)
+        return p.returncode
     finally:
         shutil.rmtree(wd, ignore_errors=True)
 
